@@ -25,7 +25,7 @@ type Atom struct {
 	Inputs  map[string]string // host inputs: variable -> value name (val alphabet or "h:" specials)
 	NonTerm bool              // known not to terminate: run under a 2 s deadline, RunContext must return the context's error
 	Heavy   bool              // allocates or burns a lot (or is expected to kill the worker): limited concurrency
-	Group   string            // light | cyclic | deep | overflow | limit : selects the placements of the quick tier
+	Group   string            // light | cyclic | deep | deep-heavy | limit : selects the placements of the quick tier
 	SigOp   string            // op=<...> of crash/hang signatures
 	SigArg  string            // arg=<...> of crash/hang signatures
 
@@ -459,8 +459,10 @@ func addLight() {
 		"range(-3, " + minI + ", " + maxI + ")",
 		"range(-9223372036854775807, " + minI + ", 5)",
 	} {
+		// fixed in /repo 2a89e14 (buildRange stops before its counter wraps): these must return a small array at once;
+		// if the run-away loop ever comes back it is reported as hang/op=range/arg=counter-overflow
 		a := ex("range-overflow/"+tag(e), "", e)
-		a.Group, a.Heavy, a.SigOp, a.SigArg = "overflow", true, "range", "counter-overflow"
+		a.SigOp, a.SigArg = "range", "counter-overflow"
 	}
 	// iteration while mutating
 	m3 := "m := {a: 1, b: 2, c: 3}"
